@@ -197,6 +197,7 @@ func runC20(c *Ctx) {
 		}
 	}
 	widthLimit(c, "R3")
+	widthRefusalExact(c, "R3")
 
 	// R4 decoder errors (shared with C03/R1)
 	c.note("R4 decoder-limit: the error of (*json.Decoder).Decode — which includes encoding/json's `exceeded max depth` — is returned as a JsonError naming the file (= C03/R1).")
